@@ -22,6 +22,18 @@ CLAIMED = {
     design_ref="DESIGN.md section 5 C18",
     note="A pure function is at the edge of this family: the all-values claim rests on the scheme being width-parametric plus sampled full-width vectors, not on enumerating 2^32 values. Trusted: TLC, the vector recorder (harness/cmd/vdrive/enc.go).",
     technique="TLA+ parametric scheme checked for all pairs at reduced width by TLC; TLC validation of recorded full-width vectors"),
+ "C13": dict(
+    category="model_checking",
+    text="TLC checks the BufferPool specification (buffer_pool_manager.go, one action per critical section, victim choice abstracted) exhaustively for 1 and 2 frames x 3 page ids x 3 versions (thorough: 3 frames depth-bounded) for Coherent, PinSafe, FreshId, ReplacerPinFree, MappedRight, NonResidentOnDisk; the operation labels of every edge of a depth-bounded state graph are performed on a real BufferPoolManager, and random operation sequences run at pool sizes 1,2,3,4,8; TLC judges every recorded step on the recorded projection of the real pool (frames, page table, free list, replacer, reusable ids, disk) plus ghosts (latest version, live ids), and checks that the step is one the mechanism spec allows.",
+    design_ref="DESIGN.md section 5 C13",
+    note="Trusted: TLC, the driver (harness/cmd/vdrive/bpm.go), guarded VerifSnapshot accessor. Users follow the pool's contract. Sequential driver; replacement policy abstracted.",
+    technique="TLA+ spec + TLC exhaustive check; graph-guided and random operation sequences on the real pool validated by TLC (state projection + invariants + step conformance)"),
+ "C06": dict(
+    category="model_checking",
+    text="The SqlModel specification (L0 contract: tables as bags over ranked domains, predicate trees, reference Answer/Updated/Remove) is the oracle; the driver runs SQL on the real engine and TLC validates every recorded statement against it: an exhaustive family of conjunctions on an indexed column (before and after a statistics refresh, so scan and index plans) and seeded random scenarios over random schemas, duplicates, multi-page tables, AND/OR trees, projections in every order, DML with read-back.",
+    design_ref="DESIGN.md section 5 C06",
+    note="Trusted: TLC, the recording driver and its rank mapping (Go equality only). Not covered yet: NULLs, negative numbers, non-indexed columns. Trace validation only (SqlModel is not explored as a state space).",
+    technique="TLA+ contract spec as oracle; TLC trace validation of recorded SQL executions"),
 }
 
 NOT_APPLICABLE = {
